@@ -24,7 +24,7 @@ META = {
     "floors": {
         "quick": {"circuits_simulated": 3000, "records_compared": 3000, "detector_checks": 3000, "with_ancilla_state": 250, "from_connectivity": 250,
                   "cycles_ge_4": 300, "refocus_off": 200},
-        "thorough": {"circuits_simulated": 20000, "records_compared": 20000, "with_ancilla_state": 4000, "from_connectivity": 4000},
+        "thorough": {"circuits_simulated": 20000, "records_compared": 20000, "with_ancilla_state": 3000, "from_connectivity": 3000},
     },
 }
 
